@@ -378,3 +378,62 @@ def run(ctx):
     ctx.notes.append(f"max subdivision depth seen {stats['depth']}; float stream: max |node - Spec| = "
                      f"{stats['err']:.1f} u*|coordinate| (margin {KNODE} u); max (squared distance / flat^2) over resulting pieces "
                      f"{stats['flatratio']:.12f}; worst excess of a resulting piece over flat = {stats['flatexcess']:.3f} u*extent/flat (band constant {KBAND})")
+
+    # =================================================================================================
+    # ---- the SOURCE-REGENERATED code (translator: nested loops, in-place list rewrite): see gen_stream below
+    gen_stream(ctx, pu, cases)
+
+
+# Generated-code stream: Gen.subdivideCubicPath with its dependencies Gen.beziersplitatt / Gen.tpoint (translated from
+# the INSTALLED ink_extensions/bezmisc.py; its sha256 is in Gen/report.json) and Gen.points_in_tolerance
+# (lean/Plotink/Gen/*.lean, regenerated on every run - the definitions the C10_gen_* theorems are about) under
+# Rounding.ieee against the real function: the final node list must be IDENTICAL, every double bit for bit - on the
+# exact (dyadic) cases above and on fresh random binary64 cases; points as lists and as tuples, alternating.
+# Fuel 3 * (number of resulting nodes) + 10 (one unit per flatness test suffices: C10_gen_terminates).
+GEN_FUNCTIONS = ['tpoint', 'beziersplitatt', 'points_in_tolerance', 'subdivideCubicPath']
+TRUSTED = TRUSTED + ['Gen.subdivideCubicPath / beziersplitatt / tpoint are regenerated on every run (C10_gen_* theorems); not verified, '
+                     'validated by the generated-code stream of this run: the translator (nested while loops on fuel, nested '
+                     'in-place stores and slice insertion as rebinding) and the Py.Val library; Rounding.ieee as binary64']
+
+
+def gen_stream(ctx, pu, cases):
+    if not ctx.driver:
+        ctx.notes.append('generated-code stream skipped: no driver')
+        return
+    import time
+    from .common import pyval
+    t0 = time.time()
+    rng = ctx.rng
+    jobs = [('exact', sp, flat) for sp, flat in cases[:ctx.n(2500)]]
+    for _ in range(ctx.n(500)):
+        scale = 10.0 ** rng.randint(-2, 4)
+        jobs.append(('float', gen_nodes_float(rng, scale), scale * 2.0 ** (-rng.randint(0, 8)) * rng.uniform(1.0, 2.0)))
+    real, lines, keep = [], [], []
+    for k, (kind, sp, flat) in enumerate(jobs):
+        ptype = tuple if k % 2 else list
+        try:
+            _, res = run_real(pu, sp, flat, len(sp) + 2 * split_bound(sp, flat * (1 - 1e-6)) + 4, ptype)
+            want = '(None ' + pyval([[list(pt) for pt in nd] for nd in res]) + ')'
+            fuel = 3 * len(res) + 10
+        except TooMany:
+            continue
+        except Exception as ex:
+            want, fuel = 'RAISE ' + type(ex).__name__, 200
+        arg = '[' + ','.join('[' + ','.join('[' + ','.join(pyval(float(c)) for c in pt) + ']' for pt in nd) + ']' for nd in sp) + ']'
+        lines.append(f'gen subdivideCubicPath 15 {fuel} {arg} {pyval(float(flat))} 1')
+        real.append(want)
+        keep.append((kind, sp, flat, ptype.__name__))
+    outs = ctx.driver.batch(lines)
+    n = {'exact': 0, 'float': 0}
+    bad = {'exact': 0, 'float': 0}
+    for (kind, sp, flat, pt), want, g in zip(keep, real, outs):
+        n[kind] += 1
+        ctx.count(('gen', str(sp), flat, pt), 'gen:' + kind, False)
+        if g != want and not (want.startswith('RAISE') and 'ERR' in g):
+            bad[kind] += 1
+            ctx.disagree('Gen.subdivideCubicPath (Rounding.ieee) vs plot_utils.subdivideCubicPath',
+                         {'fn': 'subdivideCubicPath', 'gen': True, 'stream': kind, 'nodes': show(sp), 'flat': repr(flat), 'points': pt},
+                         want[:400], g[:400])
+    ctx.notes.append(f"generated-code stream: Gen.subdivideCubicPath (Rounding.ieee) vs the real function, node lists compared bit "
+                     f"for bit: {n['exact']} exact-stream cases ({bad['exact']} differ), {n['float']} random binary64 cases "
+                     f"({bad['float']} differ); {time.time() - t0:.1f}s")
